@@ -115,7 +115,7 @@ func checkC09(c *Ctx) {
 // ---- (A) id dispatch -------------------------------------------------------------------------------------------
 
 func c09Dispatch(c *Ctx) {
-	n := c.Pick(60, 700)
+	n := c.Pick(60, 6000)
 	type out struct{ line, impl string }
 	res := make([]out, 0)
 	var lines []string
@@ -493,7 +493,7 @@ func c09Values(c *Ctx) {
 // ---- (C) end to end ---------------------------------------------------------------------------------------------
 
 func c09EndToEnd(c *Ctx) {
-	for i := 0; i < c.Pick(1, 6); i++ {
+	for i := 0; i < c.Pick(1, 14); i++ {
 		id := c.CaseID("e2e", i)
 		if c.Skip(id) {
 			continue
